@@ -25,3 +25,4 @@ run 79b75b1 C04 C06
 run 9f4bb17 C10
 run d82c9f9 C02
 run 52f7a89 C01 C19
+run 81229cd C14
